@@ -101,7 +101,7 @@ ReviveSub(p) ==
 SendUndeliverable(t, s, pl) ==
   /\ CanOp /\ t \in SendTargets /\ s \in SendSenders /\ pl \in SendPayloads
   /\ nmsg' = nmsg + 1
-  /\ LET id == IF pl = "nil" THEN 0 ELSE nmsg + 1 IN
+  /\ LET id == IF pl = "nil" THEN 0 ELSE nmsg + 1 IN       \* (payload "dead": a DeadLetterEvent value wrapping message id)
      /\ inbox' = CASE t = "nil"     -> inbox                                   \* nil target: nothing at all
                    [] t = "foreign" -> Append(inbox, [t |-> "ev", p |-> "-", o |-> 0, e |-> [MissEv(id, s) EXCEPT !.of = pl]])
                    [] OTHER         -> Append(inbox, [t |-> "ev", p |-> "-", o |-> 0, e |-> DeadEv(t, id, s, pl)])
